@@ -45,6 +45,7 @@ def run(ctx):
         'D3 results of solve_T_at_HP/SP and xsolve_T_at_HP/SP flow only into T, in the normal and the fallback branch of every setter',
         'D4 separate_out reads self.H and other.H before the material is subtracted and assigns the difference afterwards',
         'D5 iteration steps: T+(H-model)/Cn, T*exp((S-model)/Cn); secant residual model(T)-target',
+        'D6 the equation-of-state arguments loaded for a temperature solve are cleared on every normal and exceptional exit',
     ]
     ctx.not_decided = ['convergence and tolerance of the solvers', 'that assigning the current enthalpy leaves T unchanged']
     d1 = ctx.rule('D1', 'inlet enthalpies and Q reach the H sink', floor=4)
@@ -56,6 +57,8 @@ def run(ctx):
     kind_flow(ctx, d3)
     separate(ctx, d4)
     steps(ctx, d5)
+    d6 = ctx.rule('D6', 'solver scratch state is released on every exit (load ... try/finally clear)', floor=4)
+    scratch(ctx, d6)
 
 
 def mix_energy(ctx, d1, d2):
@@ -327,3 +330,25 @@ def steps(ctx, d5):
                     d5.ok('Mixture.' + name, 'iteration arguments start with (target, model) = (%s, %s)' % (tgt, mname), f, n)
                 else:
                     d5.fail('Mixture.' + name, 'args', 'iteration arguments are %s' % el[:2], f, n)
+
+
+def scratch(ctx, d6):
+    """_load_(x)free_energy_args(...) pins composition/pressure for the EOS models; if it is not cleared on every
+    exit, later H/S reads of ANY stream are evaluated with the pinned arguments."""
+    prog = ctx.prog
+    for name in ('solve_T_at_HP', 'xsolve_T_at_HP', 'solve_T_at_SP', 'xsolve_T_at_SP'):
+        f = prog.method('Mixture', name, rel=MX)
+        body = [s_ for s_ in f.node.body if not (isinstance(s_, ast.Expr) and isinstance(s_.value, ast.Constant))]
+        li = [i for i, s_ in enumerate(body) if isinstance(s_, ast.Expr) and isinstance(s_.value, ast.Call) and 'free_energy_args' in src(s_.value.func)
+              and src(s_.value.func).split('.')[-1].startswith('_load')]
+        if not li:
+            d6.fail('Mixture.' + name, 'no-load', 'the solver no longer loads the free-energy arguments', f, f.node)
+            continue
+        rest = body[li[0] + 1:]
+        okk = len(rest) == 1 and isinstance(rest[0], ast.Try) and any(
+            isinstance(x, ast.Call) and src(x.func) == 'self._free_energy_args.clear' for s_ in rest[0].finalbody for x in ast.walk(s_))
+        if okk:
+            d6.ok('Mixture.' + name, 'everything after the load runs inside try/finally: self._free_energy_args.clear()', f, rest[0])
+        else:
+            d6.fail('Mixture.' + name, 'scratch-not-released', 'after loading the free-energy arguments some exit (normal or exceptional) is not covered by a '
+                    'finally-clause that clears them: later property evaluations use stale composition / pressure', f, body[li[0]])
